@@ -57,14 +57,14 @@ def route_results(doc, routes=("dict", "yaml", "json", "builder")):
 def stringify_doc(d):
     """infinite start times as the string 'Infinity', as a user would write them in JSON"""
     for dm in d.get("demes", []):
-        if isinstance(dm.get("start_time"), float) and math.isinf(dm["start_time"]):
+        if isinstance(dm.get("start_time"), float) and dm["start_time"] == math.inf:
             dm["start_time"] = "Infinity"
     for m in d.get("migrations", []):
-        if isinstance(m.get("start_time"), float) and math.isinf(m["start_time"]):
+        if isinstance(m.get("start_time"), float) and m["start_time"] == math.inf:
             m["start_time"] = "Infinity"
     for sec in ("deme", "migration"):
         s = d.get("defaults", {}).get(sec, {})
-        if isinstance(s.get("start_time"), float) and math.isinf(s["start_time"]):
+        if isinstance(s.get("start_time"), float) and s["start_time"] == math.inf:
             s["start_time"] = "Infinity"
     return d
 
